@@ -27,6 +27,15 @@ type frame struct {
 	min, max orb.Point
 	float    bool // non-dyadic coordinates
 	name     string
+	types    string // palette of pointer kinds used by the history
+}
+
+// palettes of concrete Pointer types (class L2)
+var palettes = map[string][]int{
+	"*struct only": {kPtr},
+	"mixed":        {kPtr, kVal, kUnc, kSlice, kPoint, kZst, kValPtr, kFunc, kMap, kRef},
+	"uncomparable": {kUnc, kSlice, kFunc, kMap},
+	"values":       {kVal, kPoint, kRef, kUnc, kRef},
 }
 
 func (f frame) w(axis int) float64 { return f.max[axis] - f.min[axis] }
@@ -205,7 +214,8 @@ var profiles = map[string][3]int{
 	"query": {3, 1, 6},
 }
 
-func genOp(t *rapid.T, f frame, prof [3]int) Op {
+func genOp(t *rapid.T, f frame, prof [3]int, pal []int) Op {
+	ty := func() int { return pal[rapid.IntRange(0, len(pal)-1).Draw(t, "ty")] }
 	r := rapid.IntRange(0, prof[0]+prof[1]+prof[2]-1).Draw(t, "kind")
 	op := Op{}
 	sel := func(label string) int { return rapid.IntRange(0, 1<<16).Draw(t, label) }
@@ -223,13 +233,19 @@ func genOp(t *rapid.T, f frame, prof [3]int) Op {
 		default:
 			op.P = gen.FromPt(f.inPoint(t))
 		}
+		if op.K == "add" && op.Tgt == "" {
+			op.Ty = ty()
+		}
 	case r < prof[0]+prof[1]:
 		op.K = "rm"
 		op.Tgt = rapid.SampledFrom([]string{"stored", "stored", "stored", "created", "created", "fresh", "point", "point", "point", "ptrpoint", "filter"}).Draw(t, "tgt")
 		op.Sel = sel("sel")
 		op.P = gen.FromPt(f.anyPoint(t))
 		switch op.Tgt {
+		case "fresh":
+			op.Ty = ty()
 		case "point", "ptrpoint":
+			op.Ty = ty()
 			op.Hit = rapid.IntRange(0, 3).Draw(t, "hit") != 0
 		case "filter":
 			op.F = rapid.SampledFrom([]string{"even", "odd", "none", "all", "rmreeven"}).Draw(t, "f")
@@ -270,6 +286,7 @@ func genOp(t *rapid.T, f frame, prof [3]int) Op {
 					}
 				}
 				op.Sel2 = sel("sel2")
+				op.Spread = rapid.Bool().Draw(t, "spread")
 			}
 			if rapid.Bool().Draw(t, "buf") {
 				op.Buf = rapid.IntRange(1, 12).Draw(t, "bufn")
@@ -318,7 +335,13 @@ func drawCase(t *rapid.T, large bool) (Case, frame, string, string) {
 	case "long":
 		lo, hi = 120, 500
 	}
-	ops := rapid.SliceOfN(rapid.Custom(func(t *rapid.T) Op { return genOp(t, f, prof) }), lo, hi).Draw(t, "ops")
+	palName := rapid.SampledFrom([]string{"*struct only", "mixed", "uncomparable", "mixed", "values", "single kind"}).Draw(t, "types")
+	pal := palettes[palName]
+	if palName == "single kind" {
+		pal = []int{rapid.IntRange(0, nKinds-1).Draw(t, "kind1")}
+	}
+	f.types = palName
+	ops := rapid.SliceOfN(rapid.Custom(func(t *rapid.T) Op { return genOp(t, f, prof, pal) }), lo, hi).Draw(t, "ops")
 	return Case{Bound: gen.B{Min: gen.FromPt(f.min), Max: gen.FromPt(f.max)}, Ops: ops}, f, profName, lenClass
 }
 
@@ -339,9 +362,10 @@ func TestPropHistories(t *testing.T) {
 	} else {
 		stats.Note("walker", "unavailable ("+theWalker.why+"): black-box model comparison only; non-trivial falls back to 'remove followed by add/query'")
 	}
-	stats.Check(t, 14000, 600000, func(rt *rapid.T) {
+	stats.Check(t, 10000, 600000, func(rt *rapid.T) {
 		c, f, prof, lenClass := drawCase(rt, false)
 		stats.Class("frame:" + f.name)
+		stats.Class("pointer types:" + f.types)
 		stats.Class("profile:" + prof)
 		stats.Class("length:" + lenClass)
 		if exactCase(c) {
@@ -472,7 +496,7 @@ func TestPropConcurrentReaders(t *testing.T) {
 		sc := Shared{Base: base, Readers: make([][]Op, n)}
 		queryOnly := [3]int{0, 0, 1}
 		for i := range sc.Readers {
-			sc.Readers[i] = rapid.SliceOfN(rapid.Custom(func(t *rapid.T) Op { return genOp(t, f, queryOnly) }), 10, 60).Draw(rt, "reader")
+			sc.Readers[i] = rapid.SliceOfN(rapid.Custom(func(t *rapid.T) Op { return genOp(t, f, queryOnly, []int{kPtr}) }), 10, 60).Draw(rt, "reader")
 		}
 		stats.Class(fmt.Sprintf("concurrent:%d readers of one tree", n))
 		var nontrivial bool
@@ -642,15 +666,22 @@ type alphabet struct {
 	name    string
 	bound   orb.Bound
 	a, b, c orb.Point
+	// kinds of the pointers a, b, c, a'; probe: kind of the probe of "rm at a" (-1: an orb.Point value); shorter: enumerate one step less
+	kinds   [4]int
+	probe   int
+	shorter bool
 }
 
 var alphabets = []alphabet{
 	// a is the root value on both root midlines; b, c, a' go down the same quadrant chain
-	{"chain", orb.Bound{Min: orb.Point{0, 0}, Max: orb.Point{8, 8}}, orb.Point{4, 4}, orb.Point{6, 2}, orb.Point{8, 0}},
+	{"chain", orb.Bound{Min: orb.Point{0, 0}, Max: orb.Point{8, 8}}, orb.Point{4, 4}, orb.Point{6, 2}, orb.Point{8, 0}, [4]int{}, -1, false},
 	// three different quadrants
-	{"spread", orb.Bound{Min: orb.Point{0, 0}, Max: orb.Point{8, 8}}, orb.Point{1, 7}, orb.Point{7, 7}, orb.Point{1, 1}},
+	{"spread", orb.Bound{Min: orb.Point{0, 0}, Max: orb.Point{8, 8}}, orb.Point{1, 7}, orb.Point{7, 7}, orb.Point{1, 1}, [4]int{}, -1, false},
 	// sub-unit distances, points on midlines of a unit tree
-	{"unit", orb.Bound{Min: orb.Point{0, 0}, Max: orb.Point{1, 1}}, orb.Point{0.5, 0.5}, orb.Point{0.5, 0.25}, orb.Point{0.75, 0.5}},
+	{"unit", orb.Bound{Min: orb.Point{0, 0}, Max: orb.Point{1, 1}}, orb.Point{0.5, 0.5}, orb.Point{0.5, 0.25}, orb.Point{0.75, 0.5}, [4]int{}, -1, false},
+	// class L2: a and a' are values of one uncomparable type, b a named slice, c an orb.Point; "rm at a" probes with a third value of a's type
+	{"types", orb.Bound{Min: orb.Point{0, 0}, Max: orb.Point{8, 8}}, orb.Point{4, 4}, orb.Point{6, 2}, orb.Point{8, 0}, [4]int{kUnc, kSlice, kPoint, kUnc}, kUnc, true},
+	{"types2", orb.Bound{Min: orb.Point{0, 0}, Max: orb.Point{8, 8}}, orb.Point{1, 7}, orb.Point{5, 7}, orb.Point{1, 1}, [4]int{kMap, kZst, kFunc, kRef}, kMap, true},
 }
 
 const nActions = 7
@@ -666,6 +697,9 @@ func enumCase(al alphabet, codes []int) Case {
 		Pre:     []gen.P{gen.FromPt(al.a), gen.FromPt(al.b), gen.FromPt(al.c), gen.FromPt(al.a)},
 		Battery: true,
 	}
+	if al.kinds != [4]int{} {
+		c.PreTy = al.kinds[:]
+	}
 	for _, code := range codes {
 		switch code {
 		case 0, 1, 2, 3:
@@ -673,7 +707,11 @@ func enumCase(al alphabet, codes []int) Case {
 		case 4:
 			c.Ops = append(c.Ops, Op{K: "rm", Tgt: "created", Sel: 0, P: gen.FromPt(al.a)})
 		case 5:
-			c.Ops = append(c.Ops, Op{K: "rm", Tgt: "point", P: gen.FromPt(al.a)})
+			if al.probe >= 0 {
+				c.Ops = append(c.Ops, Op{K: "rm", Tgt: "ptrpoint", Ty: al.probe, P: gen.FromPt(al.a)})
+			} else {
+				c.Ops = append(c.Ops, Op{K: "rm", Tgt: "point", P: gen.FromPt(al.a)})
+			}
 		case 6:
 			c.Ops = append(c.Ops, Op{K: "rm", Tgt: "created", Sel: 2, P: gen.FromPt(al.c)})
 		}
@@ -692,6 +730,9 @@ func TestEnumHistories(t *testing.T) {
 	var idx, size int64
 	for _, al := range alphabets {
 		for L := 0; L <= maxL; L++ {
+			if al.shorter && L == maxL {
+				continue
+			}
 			total := 1
 			for i := 0; i < L; i++ {
 				total *= nActions
@@ -732,7 +773,7 @@ func TestEnumHistories(t *testing.T) {
 			}
 		}
 	}
-	stats.Subspace(fmt.Sprintf("all histories of length 0..%d over {add a, add b, add c, add a', rm a by identity, rm at a by point, rm c by identity} x 3 alphabets (chain, spread, unit), full query battery after the last step", maxL), size, true)
+	stats.Subspace(fmt.Sprintf("all histories of length 0..%d over {add a, add b, add c, add a', rm a by identity, rm at a by point, rm c by identity} x 3 alphabets of *struct pointers (chain, spread, unit) and, one step shorter, 2 alphabets of mixed uncomparable/value/zero-size pointer types (rm at a probing with a value of a's own type), full query battery after the last step", maxL), size, true)
 }
 
 // TestEnumRegressions runs the formerly failing inputs of known_findings.json
